@@ -52,6 +52,7 @@ import FwdVerif.Lemmas.RespFlushConn
 import FwdVerif.Lemmas.RespHeadWF
 import FwdVerif.Lemmas.ReqConn
 import FwdVerif.Lemmas.RespStatus
+import FwdVerif.Model.C02Gen
 
 namespace FwdVerif
 namespace C02
@@ -957,6 +958,16 @@ theorem c02_relay_fallback_witness :
     Relay.complete (Relay.relayWriteDeadlineFallback L) ws = false := by
   decide
 
+
+/-! ### Tie to the source: the hop-by-hop field table
+
+`Model/C02Gen.lean` is regenerated on every run from `hopByHopHeaders` of
+`internal/martian/header/hopbyhop_modifier.go`.  The table `removeHopByHop` folds over in the model
+(requests and responses share it) is that list, in that order. -/
+
+theorem c02_generated_hop_table_is_model :
+    C02Gen.hopByHopHeaders.map Req.bs = Req.hopByHopNames := by
+  with_unfolding_all decide
 
 end C02
 end FwdVerif
